@@ -310,12 +310,14 @@ pub fn audit_source(src: &str, field: &Field, case: &Value, params_vary: bool) -
 // ---------------------------------------------------------------------------------------------
 // Operator table
 
-pub const OPERANDS: [&str; 17] = [
+pub const OPERANDS: [&str; 19] = [
     "3", "n", "k", "in", "in2", "in * in", "in * in * in2", "c.out", "arr[0]", "arr[n]", "la[0]", "seven()", "inc(in)", "cube(in)",
     // elements selected by a signal: a table of constants, an array of signals
     "lc[in]", "arr[in]",
     // a signal that is assigned a compile-time constant is still an indeterminate
     "sc",
+    // two-dimensional table of constants: literal index first, signal later, and the reverse
+    "lc2[0][in]", "lc2[in][1]",
 ];
 pub const SMALL_OPERANDS: [&str; 5] = ["3", "n", "in", "in2", "in * in"];
 pub const INFIX: [&str; 20] = [
@@ -325,7 +327,7 @@ pub const PREFIX: [&str; 3] = ["-", "!", "~"];
 
 pub fn template_with(expr: &str) -> String {
     format!(
-        "template T(n) {{\n    signal input in;\n    signal input in2;\n    signal input arr[4];\n    signal output out;\n    component c = Sub();\n    var k = 2;\n    var la[2];\n    la[0] = in;\n    la[1] = 3;\n    var lc[4] = [5, 7, 11, 2];\n    signal sc;\n    sc <== 2;\n    out <-- {expr};\n}}\n"
+        "template T(n) {{\n    signal input in;\n    signal input in2;\n    signal input arr[4];\n    signal output out;\n    component c = Sub();\n    var k = 2;\n    var la[2];\n    la[0] = in;\n    la[1] = 3;\n    var lc[4] = [5, 7, 11, 2];\n    signal sc;\n    sc <== 2;\n    var lc2[2][4] = [[5, 7, 11, 2], [3, 1, 4, 1]];\n    out <-- {expr};\n}}\n"
     )
 }
 
@@ -464,9 +466,9 @@ pub fn merge_def(skel: &[Sk], atoms: &[usize], conds: &[usize]) -> Def {
 pub fn run(run: &Run) {
     run.set_rule(
         "operator table: `out <-- E` in a template (signals/ports = indeterminates) and `return E` in a \
-         function (parameters = indeterminates) for E = A op B, op A, C ? A : B over 17 operand classes \
+         function (parameters = indeterminates) for E = A op B, op A, C ? A : B over 19 operand classes \
          {literal, parameter, local constant, input signals, in*in, in*in*in2, component port, signal \
-         array element with constant/parameter/signal index, local array element, constant table indexed by a signal, signal assigned a constant, calls with constant / \
+         array element with constant/parameter/signal index, local array element, constant tables (one and two dimensions) indexed by a signal, signal assigned a constant, calls with constant / \
          signal arguments} and (thorough) depth-2 combinations over 5 classes; merging sweep: \
          skeletons x 11 atoms {x=in, x=x*in, x=2, la[0]=cube(in), la[1]=1, out<--x, mid<--la[0], \
          x=x+in2, la[0]=in*in*in2, la[0]=cube(x), x=inc(x)*in} x 2 conditions; every node with a claimed bound is evaluated on 6 bases x 5 \
